@@ -1,0 +1,101 @@
+//go:build verif
+
+package interpreter
+
+import (
+	"encoding/json"
+	"fmt"
+	"os"
+	"sort"
+	"strings"
+	"sync"
+	"time"
+
+	"github.com/ysugimoto/falco/v2/interpreter/context"
+)
+
+// Verification hooks (build tag verif). Nothing here changes simulator state.
+
+var verifTraceMu sync.Mutex
+var verifTraceSeq int
+
+// VerifCacheFresh reports whether an unexpired object is stored under hash.
+func (i *Interpreter) VerifCacheFresh(hash string) bool {
+	found, expires := i.cache.VerifPeek(hash)
+	return found && !time.Now().After(expires)
+}
+
+// VerifRequestRecord is the projection of one served request that the
+// Lifecycle trace specification consumes.
+type VerifRequestRecord struct {
+	Seq         int      `json:"seq"`
+	Interp      string   `json:"interp"`
+	Flows       []string `json:"flows"`
+	Defined     []string `json:"defined"`
+	Restarts    int      `json:"restarts"`
+	Cached      bool     `json:"cached"`
+	Error       string   `json:"error"`
+	XCache      string   `json:"xcache"`
+	HasResponse bool     `json:"has_response"`
+	Purge       bool     `json:"purge"`
+	Hash        string   `json:"hash"`
+	StoredAfter bool     `json:"stored_after"`
+}
+
+func (i *Interpreter) VerifRecord() VerifRequestRecord {
+	rec := VerifRequestRecord{Interp: fmt.Sprintf("%p", i), Flows: []string{}, Defined: []string{}}
+	if i.process != nil {
+		for _, f := range i.process.Flows {
+			if _, ok := context.FastlyReservedSubroutine[f.Subroutine]; ok {
+				rec.Flows = append(rec.Flows, strings.TrimPrefix(f.Subroutine, "vcl_"))
+			}
+		}
+		rec.Cached = i.process.Cached
+		if i.process.Error != nil {
+			rec.Error = i.process.Error.Error()
+		}
+	}
+	if i.ctx != nil {
+		rec.Restarts = i.ctx.Restarts
+		for name := range i.ctx.Subroutines {
+			if _, ok := context.FastlyReservedSubroutine[name]; ok {
+				rec.Defined = append(rec.Defined, strings.TrimPrefix(name, "vcl_"))
+			}
+		}
+		sort.Strings(rec.Defined)
+		rec.Purge = i.ctx.IsPurgeRequest
+		if i.ctx.Response != nil {
+			rec.HasResponse = true
+			rec.XCache = i.ctx.Response.Header.Get("X-Cache")
+		}
+		if i.ctx.RequestHash != nil {
+			rec.Hash = i.ctx.RequestHash.String()
+			rec.StoredAfter = i.VerifCacheFresh(rec.Hash)
+		}
+	}
+	return rec
+}
+
+// verifTraceProcess appends the record of the request just served to the file
+// named by VERIF_TRACE (called at the end of ServeHTTP, inside the handler lock).
+func verifTraceProcess(i *Interpreter) {
+	path := os.Getenv("VERIF_TRACE")
+	if path == "" {
+		return
+	}
+	verifTraceMu.Lock()
+	defer verifTraceMu.Unlock()
+	verifTraceSeq++
+	rec := i.VerifRecord()
+	rec.Seq = verifTraceSeq
+	b, err := json.Marshal(rec)
+	if err != nil {
+		return
+	}
+	f, err := os.OpenFile(path, os.O_APPEND|os.O_CREATE|os.O_WRONLY, 0o644)
+	if err != nil {
+		return
+	}
+	defer f.Close()
+	f.Write(append(b, '\n')) // nolint:errcheck
+}
